@@ -11,7 +11,8 @@
  * (registered, not cancelled, callback not yet entered) and never passes a dead handle to a
  * cancel/reset call (such an operation of the program is skipped, as in the model).
  * In a register operation the last number [af] = k > 0 makes the k-th allocation performed by
- * library code during that call fail. */
+ * library code during that call fail; k < 0 makes the |k|-th and every later one fail.  A
+ * trailing "k 1" refuses every allocation during cancel calls (which cannot fail). */
 #include <errno.h>
 #include <sys/wait.h>
 #include <unistd.h>
@@ -35,6 +36,7 @@ static struct reg * vars[64];
 static struct reg * shadow[64][2];	/* what the client believes is registered per fd/direction */
 static long next_rid;
 static int done_flag;
+static long cancel_af;		/* -1: refuse every allocation during cancel calls */
 
 static char ** tok;
 static int ntok, tpos;
@@ -111,7 +113,8 @@ lib_enter(long af)
 	lib_depth_saved = w_in_lib;
 	errno = 0;
 	w_fail_hit = 0;
-	w_fail_countdown = af;
+	w_fail_persist = (af < 0);
+	w_fail_countdown = (af < 0) ? -af : af;
 	w_in_lib = 1;
 }
 
@@ -121,6 +124,7 @@ lib_leave(void)
 
 	w_in_lib = lib_depth_saved;
 	w_fail_countdown = 0;
+	w_fail_persist = 0;
 }
 
 static void
@@ -161,7 +165,7 @@ exec_op(struct op * o)
 	case O_IC:
 		g = (o->a[0] >= 0 && o->a[0] < 64) ? vars[o->a[0]] : NULL;
 		if (g != NULL && g->kind == K_IMM && g->live) {
-			lib_enter(0);
+			lib_enter(cancel_af);
 			events_immediate_cancel(g->handle);
 			lib_leave();
 			g->live = 0;
@@ -184,7 +188,7 @@ exec_op(struct op * o)
 		}
 		break;
 	case O_NC:
-		lib_enter(0);
+		lib_enter(cancel_af);
 		rc = events_network_cancel((int)o->a[0], (int)o->a[1]);
 		e = errno;
 		lib_leave();
@@ -223,7 +227,7 @@ exec_op(struct op * o)
 	case O_TX:
 		g = (o->a[0] >= 0 && o->a[0] < 64) ? vars[o->a[0]] : NULL;
 		if (g != NULL && g->kind == K_TMR && g->live) {
-			lib_enter(0);
+			lib_enter(cancel_af);
 			events_timer_cancel(g->handle);
 			lib_leave();
 			g->live = 0;
@@ -381,6 +385,11 @@ run_case(int wfd)
 	for (i = 0; i < w_nclocks; i++) {
 		w_clocks[i].tv_sec = (time_t)nextint();
 		w_clocks[i].tv_usec = (suseconds_t)nextint();
+	}
+	if (tpos < ntok && strcmp(tok[tpos], "k") == 0) {
+		tpos++;
+		if (nextint() != 0)
+			cancel_af = -1;
 	}
 
 	/* run */
